@@ -82,6 +82,45 @@ package retriever
 //      the graphs and inside the second graph (and all of 4.-6. from those states) are enumerated at both bounds.
 //   The complete-dump check now also lists directories and symbolic links: besides manifest.json only the listed
 //   fragments (regular files) and the directories leading to them may exist.
+//
+// THIRD EXTENSION (three fault models more; everything above is kept):
+//   8. CANCELLATION instead of a crash: fault kind "cancel@hook#k" - at the k-th hook invocation the hook calls the
+//      cancel function of the context Dump was given and RETURNS (no panic); Dump then returns by itself, with an error
+//      or with nil. Enumerated like crashes: as first interruption for EVERY k of the uninterrupted run, as second
+//      interruption at {1,2,3,last} (bound "2": every) hook invocation of the resumed run; all of 4.-6. run from the
+//      states a cancelled dump leaves, too. The fake database honours the context the way a driver does (no new
+//      transaction once it is done, an open cursor stops delivering), so the real code's own checks and the driver
+//      path are both exercised; the state a cancelled run leaves is deterministic. A cancellation does not depend on
+//      the crash model: like read errors it is checked in the unwind jobs (the strict jobs only add (cancel, crash)).
+//      ORACLE: Dump returned nil => the directory is a complete dump equivalent to the reference. Dump returned an
+//      error => no manifest (same refinement as for crashes at the two post-commit points), and - checked now after
+//      EVERY kind of interruption - every fragment the checkpoint on disk lists exists with the recorded size and
+//      sha256 right after the run returned. Nothing but the cancellation happened, so the fault free resume must
+//      COMPLETE with a dump equivalent to the reference: a refusal is a violation (class
+//      "resume-refused-after-cancellation@<hook point>"); the same after a cancelled resume whenever the fault free
+//      resume from the same state completes.
+//   9. DAMAGE TO COMMITTED FRAGMENTS, length kept: one extra job per configuration (mode "damage", strict crash
+//      model). Crash at every hook invocation k; the first k reaching each distinct committed state (graphs completed,
+//      graph and phase in progress, list of committed fragments - read by the harness from the checkpoint) is used,
+//      which includes: after the first committed node fragment, after the node phase, inside the edge phase, after the
+//      first graph of a two-graph dump, inside the second graph. From each state, for EVERY committed fragment
+//      (fragments of graphs already complete included) x {first, middle, last byte xor 0x01; whole file zero-filled},
+//      one resume with the original options and the unchanged source.
+//      ORACLE: the resume returns an error (then: no manifest, the OTHER committed fragments intact), or it returns
+//      nil and the directory passes the complete-dump check (every manifest checksum equals the sha256 of the file on
+//      disk computed here, data equal to the reference). Anything else: class "damaged-fragment-accepted:<where>".
+//  10. IDENTITY-RELEVANT OPTIONS: the fields of dumpCheckpointIdentity are enumerated by reflection. Option side: for
+//      every field one must-refuse resume (from every interrupted state) with only the option behind it changed
+//      (table vcOptionSideFields); new here is the scrub rules file CONTENT with the same mode and salt: no file
+//      (built-in defaults) / "name" preserved instead of pseudonymised / another redaction marker / another timestamp
+//      shift, in every scrub configuration, plus one configuration whose interrupted dump itself uses a rules file
+//      (resumes with a fresh reader over the same content must complete - the general resume oracle). Recorded side:
+//      for EVERY field, the value recorded in the checkpoint file is changed (generic JSON edit) and the resume runs
+//      with the original options - this is the only way to vary ScrubRulesVersion, a constant of the binary. The parent
+//      process fails if a field of the identity has no variation (a field added later) or if one was never run.
+//      ORACLE: each of these resumes must return an error (classes "options-differ-accepted:scrub-rules-content",
+//      "options-differ-accepted:recorded-<json key>"); after the refusal: no manifest, committed fragments intact.
+//      Harness sanity: an uninterrupted dump under the "name preserved" rules must differ from the reference.
 
 import (
 	"context"
@@ -1103,15 +1142,15 @@ type vcJob struct {
 	strayRuns, strayRefused, toleratedCompleted int             // item 5
 	stuck                                       map[string]bool // kinds of first interruption after which a fault free resume is refused
 	// third extension (items 8-10)
-	cancelRuns, cancelCompleted, cancelResumes      int            // Dump calls with a cancellation; of these returned nil; fault free resumes after one
-	damageStates, damageRuns, damageRefused         int            // item 9
-	damageClean                                     int            // resumes over a damaged fragment that returned nil AND left a correct complete dump
-	identityRuns, recordedRuns                      map[string]int // identity field -> must-refuse resumes run with only its source option / only its recorded value changed
-	reasons                                     map[string]int
-	devHits                                     map[string]int
-	failCount                                   int
-	failures                                    []string // the (at most 5) lexicographically smallest failure strings
-	refs                                        map[string]*vcReference
+	cancelRuns, cancelCompleted, cancelResumes int            // Dump calls with a cancellation; of these returned nil; fault free resumes after one
+	damageStates, damageRuns, damageRefused    int            // item 9
+	damageClean                                int            // resumes over a damaged fragment that returned nil AND left a correct complete dump
+	identityRuns, recordedRuns                 map[string]int // identity field -> must-refuse resumes run with only its source option / only its recorded value changed
+	reasons                                    map[string]int
+	devHits                                    map[string]int
+	failCount                                  int
+	failures                                   []string // the (at most 5) lexicographically smallest failure strings
+	refs                                       map[string]*vcReference
 }
 
 func (j *vcJob) mode() string {
